@@ -55,6 +55,12 @@ def run(R):
     while not R.out_of_time() and i < (300 if R.tier == 'quick' else 4000):
         i += 1
         case(E.random_dfa(rnd, rnd.randint(3, 7), 'ab'[:rnd.randint(1, 2)], names=rnd.choice([None, ['s', 't', 'u', 'v', 'w', 'x', 'y']])), 'r%d' % i)
+    # many classes: every ordered pair of successor classes occurs (k anchors + k*k pair states); more than ten classes when k > 10
+    for k in ([4, 12] if R.tier == 'quick' else [3, 4, 7, 10, 11, 12, 13, 16]):
+        case(E.successor_pairs_dfa(k), 'pairs%d' % k)
+    for m in ([12] if R.tier == 'quick' else [3, 9, 10, 11, 12, 13, 16]):
+        case(E.burst_pairs_dfa(m), 'burst%d' % m)
+    R.bounds['dfa-many-classes'] = 'successor-pair DFAs: k anchor states (counter modulo k) and one state per ordered pair of anchors as successors, k = 4, 12 (thorough: 3..16), i.e. up to 16 + 256 states and more than ten equivalence classes; burst DFAs: m accepting states separated in one refinement round + one state per ordered pair of them + a reachability chain (2m^2+m+3 states, all reachable and pairwise inequivalent), m = 12 (thorough: 3..16)'
     # other iteration / pop orders: fresh interpreters with different string-hash seeds
     root = os.path.dirname(os.path.dirname(os.path.dirname(os.path.abspath(__file__))))
     for hs in ([3, 11] if R.tier == 'quick' else [1, 2, 3, 5, 8, 11, 13, 21]):
